@@ -207,9 +207,25 @@ fn toy_moduli(ctx: &Ctx, idx: u64) {
         let case = format!("toy-commitment-key/{}", nn);
         ctx.distinct(&case);
         for _ in 0..ctx.t(40, 400) {
-            let Some(ck) = ctx.call("CommitmentPublicKey::generate(toy N)", &case, None, || {
-                Ok::<_, ()>(CL03CommitmentPublicKey::generate::<zkryptium::cl03::ciphersuites::CL1024Sha256>(Some(Integer::from(nn)), Some(3)))
-            }).value else {
+            // run on a helper thread: a generator that never returns must not take the rest of the workload with
+            // it (a stall is inconclusive, not a violation; the thread is left behind until the process exits)
+            let m = ctx.call("CommitmentPublicKey::generate(toy N)", &case, None, || {
+                let (tx, rx) = std::sync::mpsc::channel();
+                std::thread::spawn(move || {
+                    let r = std::panic::catch_unwind(|| CL03CommitmentPublicKey::generate::<zkryptium::cl03::ciphersuites::CL1024Sha256>(Some(Integer::from(nn)), Some(3)));
+                    let _ = tx.send(r);
+                });
+                match rx.recv_timeout(std::time::Duration::from_secs(60)) {
+                    Ok(Ok(ck)) => Ok(ck),
+                    Ok(Err(_)) => Err("panicked"),
+                    Err(_) => Err("stalled"),
+                }
+            });
+            if matches!(&m.outcome, Outcome::Err(e) if e.contains("stalled")) {
+                ctx.inconclusive(&format!("CommitmentPublicKey::generate(Some({nn}), 3) did not return within 60 s"));
+                break;
+            }
+            let Some(ck) = m.value else {
                 ctx.violation("C18:commitment-key-generation-panicked", json!({"N":nn}));
                 continue;
             };
